@@ -8,6 +8,7 @@ R3 a raising compatibility check dominates every binary operator result; is_comp
    cannot return False.
 R4 __eq__ covers all data slots.
 R5 rank guards of the constructors are effective (constant-folded over ranks 0..4).
+R7 symbolic axis typing through the indexers (shapes with the axis symbols the constructor relates).
 """
 
 from __future__ import annotations
@@ -284,6 +285,297 @@ def _interp_indexer(prog, ci, m: FuncInfo, item: str, idx_kind: str, inv: dict):
     return problem[0] if problem else None
 
 
+# ----------------------------------------------------------------------------- symbolic shapes (axis typing)
+
+
+def class_shape_invariants(prog, ci: ClassInfo) -> dict[str, tuple]:
+    """attribute / constructor parameter -> tuple of axis symbols, read from the constructor's own raising checks
+    (`x.shape != (a, b)`, `x.ndim != k`, `x.shape[i] != e`, `x.shape != y.shape`); axes that the constructor relates
+    to each other or to a named size get the same symbol. Keys: attribute names and '<param>name'."""
+    init = prog.find_method(ci, "__init__")
+    if init is None:
+        return {}
+    params = set(init.param_names())
+    alias: dict[str, str] = {}  # 'self.attr' -> param name it is built from
+    for x in walk_no_nested(init.node):
+        if isinstance(x, ast.Assign):
+            for t in x.targets:
+                if isinstance(t, ast.Attribute) and isinstance(t.value, ast.Name) and t.value.id == "self":
+                    src = [y.id for y in ast.walk(x.value) if isinstance(y, ast.Name) and y.id in params]
+                    if len(src) == 1:
+                        alias[f"self.{t.attr}"] = src[0]
+
+    def base(e) -> str | None:
+        t = unparse(e)
+        if t in alias:
+            return alias[t]
+        if isinstance(e, ast.Name) and e.id in params:
+            return e.id
+        if t.startswith("self.") and t.count(".") == 1:
+            return t  # attribute without a parameter of its own
+        return None
+
+    rank: dict[str, int] = {}
+    parent: dict = {}
+
+    def find(k):
+        parent.setdefault(k, k)
+        while parent[k] != k:
+            parent[k] = parent[parent[k]]
+            k = parent[k]
+        return k
+
+    def union(a, b):
+        ra, rb = find(a), find(b)
+        if ra != rb:
+            # named sizes win over anonymous axes
+            if isinstance(ra, tuple) and not isinstance(rb, tuple):
+                parent[ra] = rb
+            else:
+                parent[rb] = ra
+
+    def sym(e) -> object:
+        """a size expression as a node of the union-find: ('x', i) for x.shape[i], else its text"""
+        if isinstance(e, ast.Subscript) and isinstance(e.value, ast.Attribute) and e.value.attr == "shape":
+            b = base(e.value.value)
+            try:
+                i = ceval(e.slice, {})
+            except Unknown:
+                return None
+            return (b, i) if b is not None and isinstance(i, int) else None
+        t = unparse(e)
+        return t[5:] if t.startswith("self.") else t
+
+    pending = []
+    for x in walk_no_nested(init.node):
+        if not (isinstance(x, ast.If) and any(isinstance(s_, ast.Raise) for s_ in x.body)):
+            continue
+        for cmp_ in [c for c in ast.walk(x.test) if isinstance(c, ast.Compare) and len(c.ops) == 1]:
+            neg = any(isinstance(u, ast.UnaryOp) and isinstance(u.op, ast.Not) and u.operand is cmp_ for u in ast.walk(x.test))
+            op = cmp_.ops[0]
+            if not ((isinstance(op, ast.NotEq) and not neg) or (isinstance(op, ast.Eq) and neg)):
+                continue
+            l, r = cmp_.left, cmp_.comparators[0]
+            for a, b in ((l, r), (r, l)):
+                if isinstance(a, ast.Attribute) and a.attr == "ndim" and isinstance(b, ast.Constant) and isinstance(b.value, int):
+                    if base(a.value) is not None:
+                        rank[base(a.value)] = b.value
+                if isinstance(a, ast.Attribute) and a.attr == "shape" and isinstance(b, ast.Tuple) and base(a.value) is not None:
+                    rank[base(a.value)] = len(b.elts)
+                    for i, el in enumerate(b.elts):
+                        pending.append(((base(a.value), i), sym(el)))
+            if isinstance(l, ast.Attribute) and l.attr == "shape" and isinstance(r, ast.Attribute) and r.attr == "shape":
+                pending.append(("same", base(l.value), base(r.value)))
+            elif isinstance(l, ast.Subscript) or isinstance(r, ast.Subscript):
+                a, b = sym(l), sym(r)
+                if a is not None and b is not None and (isinstance(a, tuple) or isinstance(b, tuple)):
+                    pending.append((a, b))
+    for it in pending:
+        if it[0] == "same":
+            _, a, b = it
+            if a is None or b is None:
+                continue
+            k = rank.get(a, rank.get(b))
+            if k is None:
+                continue
+            rank.setdefault(a, k)
+            rank.setdefault(b, k)
+            for i in range(k):
+                union((a, i), (b, i))
+        else:
+            a, b = it
+            if a is not None and b is not None:
+                union(a, b)
+    out: dict[str, tuple] = {}
+    for name, k in rank.items():
+        dims = []
+        for i in range(k):
+            r_ = find((name, i))
+            dims.append(r_ if isinstance(r_, str) else f"{r_[0].replace('self.', '')}#{r_[1]}")
+        shape = tuple(dims)
+        if name.startswith("self."):
+            out[name[5:]] = shape
+        else:
+            out[f"<param>{name}"] = shape
+            for attr, par in alias.items():
+                if par == name:
+                    out[attr[5:]] = shape
+    return out
+
+
+def shape_of(e: ast.AST, inv: dict, kinds: dict) -> tuple | None:
+    """symbolic shape of an expression over the instance's arrays: numpy basic/advanced indexing (a slice keeps the
+    axis — marked as selected unless it is the full slice —, an integer drops it, a list selects), .T, atleast_kd,
+    copies; None when the expression is not understood"""
+    if isinstance(e, ast.Attribute):
+        if isinstance(e.value, ast.Name) and e.value.id == "self" and e.attr in inv:
+            return inv[e.attr]
+        if e.attr == "T":
+            b = shape_of(e.value, inv, kinds)
+            return None if b is None else tuple(reversed(b))
+        return None
+    if isinstance(e, ast.Subscript):
+        b = shape_of(e.value, inv, kinds)
+        if b is None:
+            return None
+        elts = e.slice.elts if isinstance(e.slice, ast.Tuple) else [e.slice]
+        out, ax = [], 0
+        for k, el in enumerate(elts):
+            if isinstance(el, ast.Constant) and el.value is Ellipsis:
+                rest = sum(1 for x in elts[k + 1 :] if not (isinstance(x, ast.Constant) and x.value is None) and not (isinstance(x, ast.Attribute) and x.attr == "newaxis"))
+                while len(b) - ax > rest:
+                    out.append(b[ax])
+                    ax += 1
+                continue
+            if (isinstance(el, ast.Constant) and el.value is None) or (isinstance(el, ast.Attribute) and el.attr == "newaxis"):
+                out.append("1")
+                continue
+            if ax >= len(b):
+                return None
+            if isinstance(el, ast.Slice):
+                full = el.lower is None and el.upper is None and el.step is None
+                out.append(b[ax] if full else b[ax].rstrip("'") + "'")
+            elif isinstance(el, ast.Constant) and isinstance(el.value, int):
+                pass
+            elif isinstance(el, ast.Name) and el.id in kinds:
+                if kinds[el.id] != "int":
+                    out.append(b[ax].rstrip("'") + "'")
+            elif isinstance(el, (ast.List, ast.ListComp)):
+                out.append(b[ax].rstrip("'") + "'")
+            else:
+                return None
+            ax += 1
+        out.extend(b[ax:])
+        return tuple(out)
+    if isinstance(e, ast.Call):
+        fn = (dotted(e.func) or "").split(".")[-1]
+        if fn in ("atleast_1d", "atleast_2d", "atleast_3d") and len(e.args) == 1:
+            b = shape_of(e.args[0], inv, kinds)
+            if b is None:
+                return None
+            k = int(fn[8])
+            if len(b) >= k:
+                return b
+            if k == 1:
+                return ("1",)
+            if k == 2:
+                return ("1", "1") if len(b) == 0 else ("1", b[0])
+            return {0: ("1", "1", "1"), 1: ("1", b[0], "1") if b else None, 2: (b[0], b[1], "1") if len(b) == 2 else None}[len(b)]
+        if fn in ("asarray", "array", "copy", "ascontiguousarray", "asanyarray") and e.args:
+            return shape_of(e.args[0], inv, kinds)
+        if fn == "transpose" and len(e.args) == 1 and not e.keywords:
+            b = shape_of(e.args[0], inv, kinds)
+            return None if b is None else tuple(reversed(b))
+        if isinstance(e.func, ast.Attribute) and e.func.attr in ("astype", "copy") :
+            return shape_of(e.func.value, inv, kinds)
+        if isinstance(e.func, ast.Attribute) and e.func.attr == "transpose" and not e.args:
+            b = shape_of(e.func.value, inv, kinds)
+            return None if b is None else tuple(reversed(b))
+        return None
+    return None
+
+
+def rule_r7(prog, res) -> None:
+    """axis typing through the indexers: the constructor relates the axes of the arrays to each other and to the
+    number of bins / patches (symbolic shapes read from its raising checks); after a selection with an integer or a
+    slice every array must still have ITS axes in THEIR places (an axis may only be kept, selected, or become a
+    length-1 axis), and an axis symbol shared by several arrays / positions must be treated alike everywhere —
+    otherwise the sub-container holds transposed samples or is selected along one of its two patch axes only.
+    Decided on the symbolic store of each indexer, for both documented index kinds."""
+    from .. import symx
+
+    n = 0
+    for ci in _containers(prog):
+        inv = class_shape_invariants(prog, ci)
+        if not any(not k.startswith("<") for k in inv):
+            continue
+        init = prog.find_method(ci, "__init__")
+        pos = [p_.arg for p_ in init.node.args.args][1:]
+        for mname in ("_make_bin_slice", "_make_patch_slice"):
+            m = ci.methods.get(mname)
+            if m is None:
+                continue
+            item = m.param_names()[1]
+            for idx_kind in ("int", "slice"):
+                kinds = {item: idx_kind}
+
+                def oracle(t, kinds=kinds, item=item, inv=inv):
+                    if isinstance(t, ast.Call) and isinstance(t.func, ast.Name) and t.func.id == "isinstance" and len(t.args) == 2:
+                        if isinstance(t.args[0], ast.Name) and t.args[0].id == item:
+                            names = {(dotted(x) or "").split(".")[-1] for x in (t.args[1].elts if isinstance(t.args[1], ast.Tuple) else [t.args[1]])}
+                            return bool(names & ({"int", "integer", "Integral"} if kinds[item] == "int" else {"slice"}))
+                        return None
+                    if isinstance(t, ast.Compare) and len(t.ops) == 1 and isinstance(t.left, ast.Attribute) and t.left.attr == "ndim":
+                        sh = shape_of(t.left.value, inv, kinds)
+                        if sh is not None:
+                            try:
+                                return bool(ceval(ast.Compare(left=ast.Constant(len(sh)), ops=t.ops, comparators=t.comparators), {}))
+                            except Unknown:
+                                return None
+                    return None
+
+                try:
+                    paths = [p for p in symx.explore(prog, m, inline=symx.inline_private_helpers(prog), oracle=oracle) if p.outcome == "return" and p.value is not None]
+                except symx.TooManyPaths:
+                    continue
+                for p in paths:
+                    got: dict[str, tuple] = {}
+                    where = p.node or m.node
+                    v = p.value
+                    if isinstance(v, ast.Call) and not (isinstance(v.func, ast.Attribute) and v.func.attr == "__new__"):
+                        fn_ = unparse(v.func)
+                        if fn_ in ("type(self)", "self.__class__", ci.name, "cls") or fn_.endswith(".__class__"):
+                            for i, a in enumerate(v.args):
+                                if i < len(pos):
+                                    got[pos[i]] = a
+                            for k in v.keywords:
+                                if k.arg:
+                                    got[k.arg] = k.value
+                            got = {k: shape_of(a, inv, kinds) for k, a in got.items() if f"<param>{k}" in inv}
+                            want = {k: inv[f"<param>{k}"] for k in got}
+                    rv = p.node.value if isinstance(p.node, ast.Return) and isinstance(p.node.value, ast.Name) else v
+                    if not got and isinstance(rv, ast.Name):
+                        for key, val in p.store.items():
+                            if isinstance(key, str) and key.startswith(rv.id + ".") and key.count(".") == 1 and key.split(".")[1] in inv:
+                                got[key.split(".")[1]] = shape_of(val, inv, kinds)
+                        want = {k: inv[k] for k in got}
+                    got = {k: g for k, g in got.items() if g is not None}
+                    if not got:
+                        continue
+                    n += 1
+                    res.touch(m)
+                    site = res.site(m, f"index kind {idx_kind}")
+                    bad = None
+                    sigma: dict[str, set] = {}
+                    for k, g in sorted(got.items()):
+                        w = want[k]
+                        if len(g) != len(w):
+                            continue  # a rank error: reported by R2
+                        for i, (gs, ws) in enumerate(zip(g, w)):
+                            if gs == "1":
+                                sigma.setdefault(ws, set()).add("selected")
+                            elif gs.rstrip("'") != ws:
+                                bad = bad or f"axis {i} of '{k}' holds the {gs.rstrip(chr(39))} axis where the constructor of {ci.name} expects the {ws} axis (shape {g} for {w})"
+                            else:
+                                sigma.setdefault(ws, set()).add("selected" if gs.endswith("'") else "kept")
+                    if bad is None:
+                        mixed = sorted(s_ for s_, how in sigma.items() if len(how) > 1)
+                        if mixed:
+                            bad = f"the {mixed[0]} axis is selected in one array / position and kept whole in another ({ {k: g for k, g in sorted(got.items())} })"
+                    if bad:
+                        res.violation(
+                            "C17.R7",
+                            m,
+                            where,
+                            f"for an {idx_kind} index: {bad} — the sub-container is inconsistent (transposed or partially selected data)",
+                            key_extra=f"axes-{mname}-{idx_kind}",
+                        )
+                    else:
+                        res.ok("C17.R7", site, "every array keeps its axes in place: " + ", ".join(f"{k}{g}" for k, g in sorted(got.items())))
+    if n < 6:
+        raise AnalysisError(f"C17.R7: only {n} (indexer, index kind, path) instances could be shape-typed, minimum 6")
+
+
 def rule_r3(prog, res) -> None:
     """compatibility check dominates every binary operator; is_compatible(require=True) cannot return False"""
     n = 0
@@ -470,4 +762,5 @@ RULES = [
     ("C17.R4", rule_r4, QUICK),
     ("C17.R5", rule_r5, QUICK),
     ("C17.R6", rule_r6, QUICK),
+    ("C17.R7", rule_r7, QUICK),
 ]
